@@ -105,7 +105,18 @@ class AppError(Exception):
 FILES = ["pkg/alpha.py", "pkg/alpha2.py", "lib/alpha.py", "lib/beta.py", "gamma.py"]
 FUNC_NAMES = ["run", "helper", "load", "step", "compute"]
 CLASS_NAMES = ["K", "L", "Node"]
-VAR_NAMES = ["a", "b", "x", "y", "data", "secret", "cfg", "n", "_priv", "__dd", "__dunder__", "tmp", "total"]
+# ordinary names, private / dunder names, and names that are legal variables although they look special:
+# the soft keywords (`_`, `match`, `case`, `type`), `__`, names with digits, non-ASCII identifiers
+VAR_NAMES = ["a", "b", "x", "y", "data", "secret", "cfg", "n", "_priv", "__dd", "__dunder__", "tmp", "total",
+             "_", "match", "case", "type", "__", "x1", "v2_3", "\u00e9", "\u5909\u6570", "soft"]
+SOFT_NAMES = ["_", "match", "case", "type", "\u00e9", "\u5909\u6570", "x1"]
+
+import pickle as _pickle
+# bytes-valued locals, among them bytes that are themselves valid pickles of other objects
+BYTES_VALUES = [repr(b"\x89PNG\r\n"), repr(b""), repr(b"IHDR...."), repr(_pickle.dumps([1, 2], protocol=5)),
+                repr(_pickle.dumps({"answer": 42}, protocol=2)), repr(b"I7\n."), repr(_pickle.dumps("s", protocol=5)),
+                "bytearray(b'ab')", "bytearray(%r)" % _pickle.dumps((1, 2), protocol=4),
+                "memoryview(b'mv').tobytes()"]
 
 KINDS = ["func", "func", "func", "method", "nested", "lambda", "genexpr", "classbody", "relay", "relay", "recurse"]
 HOWS = ["call", "call", "call", "call", "ctx", "cause", "from_none", "finally", "reraise", "with", "cause_other"]
@@ -115,7 +126,9 @@ BOTTOMS = ["raise", "raise", "zerodiv", "keyerror", "apperror", "ctx_bottom", "c
 def _gen_value(rng, tog_ids):
     """-> python expression text for a local's value"""
     r = rng.random()
-    if r < 0.22:
+    if r < 0.13:
+        return rng.choice(BYTES_VALUES)
+    if r < 0.26:
         return str(rng.randint(-5, 999))
     if r < 0.36:
         return repr(rng.choice(["s", "hello", "", "p@ss", "x,y", "é"]))
@@ -527,6 +540,11 @@ def gen_varfilter(rng, frames, utility):
     """-> (variables, exclude_variables) JSON values"""
     names = sorted({v for fr in frames for v in fr[4]})
     pool = names + ["nosuch", "other"]
+    special = [n for n in names if n in SOFT_NAMES]
+    if special and rng.random() < 0.5:
+        pool = pool + special * 3            # bias towards soft keywords / non-ASCII names that really are locals
+    elif rng.random() < 0.15:
+        pool = pool + SOFT_NAMES
     invalid = ["1bad", "a-b", "class", "", "x y", "a.b", ".0", "for", " x", "é-"]
 
     def one():
